@@ -1,5 +1,6 @@
 import numpy as np
 from kappadata.datasets.kd_wrapper import KDWrapper
+from kappadata.utils.getall_as_tensor import getall_as_list
 from kappadata.utils.one_hot import to_one_hot_vector
 
 
@@ -16,7 +17,8 @@ class SemiWrapper(KDWrapper):
         return self.dataset.getitem_class(idx, ctx=ctx)
 
     def getall_class(self):
-        cls = self.dataset.getall_class()
+        # copy: the wrapped dataset may return its internal list
+        cls = list(getall_as_list(self.dataset, item="class"))
         for idx in self.semi_idxs:
             cls[idx] = -1
         return cls
